@@ -31,10 +31,11 @@ NoT = -99998
 class Labeling:
     """Concrete names for abstract nodes 1..N and a shift of the instants."""
 
-    def __init__(self, name, node_fn, shift=0, swap_undirected=False):
+    def __init__(self, name, node_fn, shift=0, swap_undirected=False, time_fn=int):
         self.name = name
         self.node_fn = node_fn
         self.shift = shift
+        self.time_fn = time_fn      # concrete type of an instant (int, or a numpy integer type)
         self.swap = swap_undirected  # give undirected endpoints in the other order
         self._back = {}
 
@@ -44,7 +45,7 @@ class Labeling:
         return c
 
     def time(self, t):
-        return t + self.shift
+        return self.time_fn(t + self.shift)
 
     def anode(self, c):
         """abstract node of a concrete one (KeyError when unknown)"""
@@ -99,6 +100,8 @@ LABELINGS = {
     # non-ASCII string ids (encodable in latin-1 / cp1252 as well as utf-8)
     "uni": lambda: Labeling("uni", lambda i: ["zo\u00e9", "j\u00fcrgen", "\u00f1u", "\u00e5sa", "caf\u00e9-%d" % i][min(i, 5) - 1] if i < 5 else "caf\u00e9-%d" % i, shift=2),
     "mixed": lambda: Labeling("mixed", _mixed, shift=5, swap_undirected=True),
+    # numpy integers as instants (and as node ids): any integral type is an integer timestamp
+    "npt": lambda: Labeling("npt", lambda i: __import__("numpy").int64(i + 10), shift=4, time_fn=__import__("numpy").int64),
     # string ids containing (and ending with) the character the temporal DAG uses to join node and instant
     "under": lambda: Labeling("under", lambda i: ["n_%d", "a_b_%d_", "_%d", "x__%d"][i % 4] % i, shift=1),
 }
